@@ -16,7 +16,7 @@ from common import rng_for, run_model, coq_eval, w_list, frac
 
 RULE = ("(A) 300 random rows of fields over an alphabet with delimiters, quotes, CR, LF, spaces, unicode + 200 random raw texts; (B) 60 continua x "
         "delimiters , ; tab | with annotators / labels containing those characters; (C) 40 files with zero-length and negative rows, both modes; "
-        "(D) 40 TextGrid, 40 ELAN, 30 RTTM files (tier selections, both label modes, empty marks). non-trivial = a field that needs quoting, a "
+        "(D) 40 TextGrid, 40 ELAN, 30 RTTM files (tier selections incl. the empty one and absent names, both label modes, empty marks). non-trivial = a field that needs quoting, a "
         "zero-length row, a tier selection or tier-as-label; distinct by content")
 TRUSTED_BASE = ["Coq 8.16.1 kernel", "extraction (ExtrOcamlBasic only), ocaml/driver.ml", "harness/{common,gen,c18}.py: file templates for TextGrid / RTTM, pympi for writing .eaf",
                 "oracles: textgrid, pympi, pyannote.database.util.load_rttm, float repr/parse round trip (tested on every generated time)"]
@@ -233,7 +233,10 @@ def part_d(rep, pa, rng, tier):
         for ci in range(nfiles):
             tiers = gen_tiers(rng, tiling=(kind == "textgrid"))
             names = [n for n, _ in tiers]
-            sel = None if rng.random() < 0.4 else rng.sample(names + ["absent"], rng.randrange(1, len(names) + 1))
+            # None = every tier; a selection may be empty (then nothing is selected), name absent tiers, and be any container
+            sel = None if rng.random() < 0.35 else rng.sample(names + ["absent"], 0 if ci % 4 == 0 else rng.randrange(1, len(names) + 1))
+            if sel is not None:
+                rep.count("selection_size=%d" % len(sel))
             use_tier = rng.random() < 0.4
             with tempfile.TemporaryDirectory(prefix="pgaverif_") as dd:
                 c = pa.Continuum()
